@@ -1,4 +1,5 @@
 """Per-property configuration of ./check (harness kind, comparison, coverage expectations)."""
+import json
 
 
 def _classes_present(field, expected):
@@ -156,6 +157,21 @@ PROPS["C12"] = {
     "level_note": "Trusted: Lean kernel; harness (trace validation: the model replays the realised step list); protovalidate. An out-of-range status ends the decision stream with an error (outside the claim, modelled). A status delivered to a bid whose hand-off was abandoned stays unread in its buffered channel (modelled).",
     "nontrivial_rule": "distinct realised step lists (tag, model outs); a run is non-trivial if it contains a decision for a registered digest",
     "assumptions": ["critical sections under bidsMu and the unbuffered hand-off are the atomic steps"],
+}
+
+PROPS["C01"] = {
+    "harness": {"kind": "cmd", "cmd": "handlebid"},
+    "level_text": "Theorem for every environment and every schedule (universally quantified event lists: hand-off, decisions for this or another digest with any status value, deadline, cancellation, in any order, plus every combination of gate outcomes and of sign/store/write faults): any effect (commitment signature, settlement submission, commitment message) implies peer role = bidder, bid read, verified, funded, well-formed and an ACCEPTED decision naming this bid's digest before any deadline/cancellation; effects are always a prefix of sign, store, write; in every other case no effect and an error or nothing. The handler is composed with the provider service's registration/hand-off/decision semantics. Tied to the real handleBid wired to the real preconfsigner (counting key signer), the real bidder-registry wrapper, the real provider Service with real protovalidate (the harness plays the engine on both gRPC streams), the real preconf-contract wrapper and a scripted stream: every single gate failure, every engine behaviour (reject, status 0/3, wrong digest, duplicates, silence, never taken, accept after deadline/cancel), faults, and random cells of the full matrix. Every gate of the model's environment is evaluated by the Lean models of the components (C02 signer with go-ethereum primitive answers, C11 registry decode, C12 format rules).",
+    "level_note": "Trusted: Lean kernel; harness; the 5 s deadline is emulated by cancelling the parent context (real-time behaviour of context.WithTimeout is sampled in the thorough tier only; its literal duration is regenerated from the source); decisions arriving before the engine took the bid are covered by the model and by C12's in-package harness, not forced here.",
+    "nontrivial_rule": "distinct (tag, gate vector, schedule class, model observation) cells",
+    "class_of": lambda c, r: "%s|%s" % (c["in"]["tag"], json.dumps(r.get("model"), sort_keys=True)),
+}
+PROPS["C07"] = {
+    "harness": {"kind": "cmd", "cmd": "handlebid"},
+    "level_text": "Theorems: decode(encode(args)) = args for the 7-argument storeCommitment call (unbounded string/bytes, all 64-bit numbers; selector + head/tail layout); for every bid in the validated domain the calldata built from the commitment decodes to exactly its amount, block number, tx-hash string, decay window, bid signature and commitment signature (the 64-bit conversions are the identity there); in the handler model a commitment is written only after a successful submission and a failed submission yields an error and no commitment. Tied to the real handleBid + real preconf-contract wrapper: captured calldata is decoded by the Lean decoder and compared field by field with the commitment actually written, compared byte for byte with the Lean encoder's output (i.e. with go-ethereum's abi.Pack), destination = configured address, order of Send and WriteMsg; amounts up to 2^64-1 incl. [2^63, 2^64).",
+    "level_note": "Trusted: Lean kernel; harness; go-ethereum abi.Pack (compared byte for byte on every accepting case); contracts-abi metadata for the selector; big.Int.Int64 on [2^63,2^64) returns the low 64 bits in the pinned Go implementation (documented as undefined; compared differentially).",
+    "nontrivial_rule": "distinct accepted bids (tag, calldata length class); every case is a fresh random bid",
+    "class_of": lambda c, r: "%s|%d" % (c["in"]["tag"], len(c["in"]["bid"]["txhash"])),
 }
 
 NOT_CLAIMED = {}
